@@ -1,0 +1,40 @@
+//go:build verif
+
+package pipc
+
+// Machine-checked contracts for /verif (gowp). Comment-only file: it adds no code.
+
+// ---- C16: pip:try ----
+// The surrounding scope is held open (one task) until the handler goroutine is done; the body
+// runs in a scope with a fresh context of its own, so its failure does not fail the parent.
+//@ func Try [C16]
+//@   layers contract trace
+//@   trace AddTasks as ADD
+//@   trace scope.New as NEWSCOPE bind sep
+//@   trace Runner.Run as SUBMIT:$0.Name
+//@   trace DoneTask as DONE
+//@   trace go:Try$1 as SPAWN
+//@   at_call scope.New requires $0.ContextScope == nil
+//@   at_call Runner.Run requires $0.Context.Scope == sep && $0.Name == "body"
+//@   trace_ensures err == nil : ADD NEWSCOPE SUBMIT:body SPAWN $
+//@   trace_ensures err != nil : (ADD NEWSCOPE SUBMIT:body DONE $|^(ADD )?$)
+
+// Handlers are submitted only after the body's scope has been waited for, into the parent
+// scope, each at most once: finally iff defined, fail iff defined and the body failed,
+// success iff defined and the body succeeded; a failing submission is appended to the parent.
+//@ func Try$1 [C16]
+//@   layers contract trace
+//@   trace Scope.Wait as WAIT
+//@   trace Runner.Run as SUBMIT:$0.Name
+//@   trace AppendError as APPERR
+//@   trace DoneTask as DONE
+//@   at_call Runner.Run requires $0.Context.Scope == parentScope
+//@   at_call Scope.Wait requires $recv == separatedScope
+//@   at_call AppendError requires $recv == parentScope
+//@   trace_ensures true : ^WAIT (SUBMIT:finally )?(APPERR )?(SUBMIT:fail )?(APPERR )?(SUBMIT:success )?(APPERR )?DONE $
+//@   trace_ensures deps.FinallyBody == "" : !SUBMIT:finally
+//@   trace_ensures deps.FinallyBody != "" : ^WAIT SUBMIT:finally
+//@   trace_ensures !(deps.FailBody != "" && catchErr != nil) : !SUBMIT:fail
+//@   trace_ensures !(deps.SuccessBody != "" && catchErr == nil) : !SUBMIT:success
+//@   trace_ensures deps.FailBody != "" && catchErr != nil : (SUBMIT:fail |APPERR )
+//@   trace_ensures deps.SuccessBody != "" && catchErr == nil : (SUBMIT:success |APPERR )
